@@ -32,6 +32,8 @@ const WRAPS: &[(&str, &str)] = &[
 pub enum StepKind {
     Type { word: u16, wrap: u8 },
     Retype { k: u8 },
+    /// the word of an earlier step followed by a suffix key (learned base + suffix as a text of its own)
+    Suffixed { k: u8, suffix: u16, wrap: u8 },
 }
 
 #[derive(Clone, Debug, Serialize, Deserialize, Hash)]
@@ -122,6 +124,16 @@ pub fn run_case(run: &Run, c: &Case, st: &mut Stats) -> Result<(), Failure> {
                 }
                 typed[*k as usize % typed.len()].clone()
             }
+            StepKind::Suffixed { k, suffix, wrap } => {
+                let base = if typed.is_empty() { ws[*k as usize % ws.len()].clone() } else { typed[*k as usize % typed.len()].1.clone() };
+                let sk = &pools().suffix_keys;
+                let (l, t) = WRAPS[*wrap as usize % WRAPS.len()];
+                if base.ends_with(':') || base.ends_with('`') {
+                    continue;
+                }
+                st.label("suffixed-text-step");
+                (l.to_string(), format!("{base}{}", sk[*suffix as usize % sk.len()]), t.to_string())
+            }
         };
         let x = format!("{l}{w}{t}");
         typed.push((l.clone(), w.clone(), t.clone()));
@@ -155,7 +167,16 @@ pub fn run_case(run: &Run, c: &Case, st: &mut Stats) -> Result<(), Failure> {
                 // known: a trailing ':' stays inside the word part, so the key that completes the learned
                 // text is a selection-preserving punctuation key and the caller's byte (the preselection of
                 // the list shown for the text without the colon) overrides the learned index
-                let colon_in_word = crate::model::ref_split(&x, false).1.ends_with(':');
+                // the known finding is only the override: after one more key and a backspace the list for
+                // the same text is rebuilt WITHOUT a punctuation key, and must then preselect the learned choice
+                let mut colon_in_word = crate::model::ref_split(&x, false).1.ends_with(':');
+                if colon_in_word {
+                    ctx.ch('k', psi.min(255) as u8).map_err(|p| pf(p, &log))?;
+                    let again = ctx.backspace(false).map_err(|p| pf(p, &log))?;
+                    if again.cands.get(again.sel) != Some(want) {
+                        colon_in_word = false; // the learned entry itself is not found: not the known finding
+                    }
+                }
                 let kind = if colon_in_word && r.cands.contains(want) { "learned-choice-overridden-colon-in-word" } else if r.cands.contains(want) { "learned-choice-not-preselected" } else { "learned-choice-not-offered" };
                 if !run.absorb(st, kind) {
                 return Err(fail(kind, format!("re-typed {x:?}: learned choice {want:?} but preselected index {psi} of {:?}", r.cands), c, &log));
@@ -265,6 +286,7 @@ pub fn strategy() -> impl Strategy<Value = Case> {
     let kind = prop_oneof![
         3 => (any::<u16>(), any::<u8>()).prop_map(|(word, wrap)| StepKind::Type { word, wrap }),
         3 => any::<u8>().prop_map(|k| StepKind::Retype { k }),
+        2 => (any::<u8>(), any::<u16>(), any::<u8>()).prop_map(|(k, suffix, wrap)| StepKind::Suffixed { k, suffix, wrap }),
     ];
     let step = (kind, prop_oneof![3 => Just(None), 7 => any::<u16>().prop_map(Some)], proptest::bool::weighted(0.3)).prop_map(|(kind, commit, restart)| Step { kind, commit, restart });
     (any::<bool>(), any::<bool>(), proptest::collection::vec(step, 2..9), proptest::collection::vec((any::<u8>(), any::<u16>()), 3..4))
@@ -274,6 +296,7 @@ pub fn strategy() -> impl Strategy<Value = Case> {
 pub fn run(run: &Run) {
     run.sharded("learn-retype-restart", 16, run.tier.pick(250, 6000), 400, strategy, |_| (), |c: &Case, st, _| run_case(run, c, st));
     run.require_label("retyped-after-restart", 30);
+    run.require_label("suffixed-text-step", 100);
     run.require_label("learning-commit", 100);
     run.require_label("suffix-check-with-two-agreeing-decompositions", 3);
 }
